@@ -136,5 +136,5 @@ func ExpiryMenu(w *World) []Action {
 // V1InBlockMenu: a v1 contract formed and revised (twice) inside one block - the revision's parent exists only among the
 // block's own creations - followed by what can happen to it afterwards.
 func V1InBlockMenu(w *World) []Action {
-	return []Action{V1FormRevise(true), V1FormRevise(false), V1Revise("pay"), V1Proof(false), V1SF(true)}
+	return []Action{V1FormRevise(true), V1FormRevise(false), V1FormProve(false), V1FormProve(true), V1Revise("pay"), V1Proof(false), V1SF(true)}
 }
